@@ -125,7 +125,7 @@ Definition S_ord_machine_value : Prop :=
          (k : ocfg) (len : nat) (s : ost),
   (1 <= o_tasks k)%nat ->
   oreachable k (nseq 0 len) s -> ofinal s = true ->
-  ord_value f fold init (rev (o_arr s)) = fold_left fold (map f (nseq 0 len)) init.
+  ord_value f fold init (lrev (o_arr s)) = fold_left fold (map f (nseq 0 len)) init.
 
 (** on the executable runner: under every schedule, with a free global worker the run
     terminates with the in-order fold; with the caller as the only global thread it
